@@ -133,6 +133,10 @@ type Choice struct {
 	N      int
 	Chosen int
 	Kind   ChoiceKind
+	// FreeCost is what an alternative costs when the running thread was blocked or finished:
+	// 0 = preemption bounding (CHESS), 1 = delay bounding (every departure from the canonical
+	// next thread is a deviation).
+	FreeCost int
 }
 
 // Cost returns the deviation cost of taking alternative alt at this point.
@@ -143,13 +147,15 @@ func (c Choice) Cost(alt int) int {
 	switch c.Kind {
 	case CkRunFirst, CkRunFirstClock, CkData:
 		return 1
-	case CkFree, CkDataFree:
+	case CkDataFree:
 		return 0
+	case CkFree:
+		return c.FreeCost
 	case CkFreeClock:
 		if alt == c.N-1 {
 			return 1
 		}
-		return 0
+		return c.FreeCost
 	}
 	return 1
 }
@@ -191,6 +197,9 @@ type Options struct {
 	Horizon    int   // max number of points; 0 = default
 	MaxTime    int64 // virtual ns after which CLOCK stops advancing; 0 = default (1s)
 	SelectFree bool
+	// DelayBounded makes every departure from the canonical schedule cost one deviation, also when the
+	// running thread is blocked (delay bounding); default is preemption bounding.
+	DelayBounded bool
 }
 
 // Exec is one execution.
@@ -219,6 +228,7 @@ type Exec struct {
 	timerSeq int
 
 	selectFree bool
+	freeCost   int
 	closed     [64]uintptr
 	nclosed    int
 	syncWord   int64
@@ -359,7 +369,7 @@ func (x *Exec) choose(n int, kind ChoiceKind) int {
 		x.res.HorizonHit = true
 		return c
 	}
-	x.choices = append(x.choices, Choice{N: n, Chosen: c, Kind: kind})
+	x.choices = append(x.choices, Choice{N: n, Chosen: c, Kind: kind, FreeCost: x.freeCost})
 	return c
 }
 
@@ -882,6 +892,9 @@ func Run(o Options, prefix []int, body func()) *Result {
 		horizon:    o.Horizon,
 		maxTime:    o.MaxTime,
 		selectFree: o.SelectFree,
+	}
+	if o.DelayBounded {
+		x.freeCost = 1
 	}
 	if x.horizon == 0 {
 		x.horizon = 200000
